@@ -409,7 +409,7 @@ func replay(tier string, raw json.RawMessage) (bool, string, string) {
 func init() {
 	core.Register(&core.Prop{
 		ID: "C03", Variant: "plain", Shards: shards, Run: run, Replay: replay,
-		Rule: "breadth-first reachability over statement contexts starting at module and submodule; in every reachable context every keyword of the alphabet (RFC 7950 keywords, the builder's meta names, an unknown word, a prefixed extension) is tried as a child once, twice, three times, interleaved with another statement and with extension statements (with and without blocks), without argument, and with every subset of its mandatory substatements omitted or doubled; every keyword is also tried at top level alone and next to a valid module. Oracle: Modules.Parse returns an error, or a reflection walk over the exported fields finds every source statement exactly once under the field tagged with its keyword (extensions list for prefixed keywords), in source order, with name = argument, parent = enclosing node, statement = the source statement; must-reject classes must give an error. states = distinct texts; non-trivial = accepted texts",
+		Rule:        "breadth-first reachability over statement contexts starting at module and submodule; in every reachable context every keyword of the alphabet (RFC 7950 keywords, the builder's meta names, an unknown word, a prefixed extension) is tried as a child once, twice, three times, interleaved with another statement and with extension statements (with and without blocks), without argument, and with every subset of its mandatory substatements omitted or doubled; every keyword is also tried at top level alone and next to a valid module. Oracle: Modules.Parse returns an error, or a reflection walk over the exported fields finds every source statement exactly once under the field tagged with its keyword (extensions list for prefixed keywords), in source order, with name = argument, parent = enclosing node, statement = the source statement; must-reject classes must give an error. states = distinct texts; non-trivial = accepted texts",
 		Assumptions: []string{"an extension statement is a unit: its own substatements are not expected in the AST", "the table of mandatory substatements is taken from RFC 7950 (YANG 1 cardinality-1 rows)"},
 	})
 }
